@@ -43,7 +43,7 @@ static void cb(const volatile void *addr, unsigned size, int op, uint64_t o, uin
   if(op!=3 || strcmp(func,"_dispatch_lane_suspend") || pthread_equal(pthread_self(),main_th)) return;
   if(!trng) trng=0x9e3779b97f4a7c15ull^(uint64_t)(uintptr_t)&trng; trng^=trng<<13; trng^=trng>>7; trng^=trng<<17;
   (void)trng; }
-static void on_crash(int sig){ char b[260]; int n=snprintf(b,sizeof b,"ORACLE VIOL seed=%llu the library trapped or crashed (signal %d) while reads of two channels waited on one pipe and the first channel was stopped (its own over-resume / over-release check): iteration %d\n",(unsigned long long)seed,sig,g_it); if(n>0) (void)!write(1,b,(size_t)n); _exit(1); }
+static void on_crash(int sig){ char b[260]; int n=snprintf(b,sizeof b,"ORACLE VIOL seed=%llu the library trapped or crashed (signal %d) while reads of two channels waited on one pipe and the first channel was stopped (its own over-resume / over-release check): iteration %d\n",(unsigned long long)seed,sig,g_it); if(n>0) (void)!write(1,b,(size_t)n); if(getenv("REARM_CORE")){ signal(sig,SIG_DFL); return; } _exit(1); }
 #define NOP 8
 struct op { _Atomic int done, calls_after_done; _Atomic long bytes; _Atomic int err; };
 static long iteration(int it){ int p[2]; if(pipe(p)) return 0; g_it=it; fcntl(p[1],F_SETFL,O_NONBLOCK);
